@@ -304,8 +304,8 @@ func (c *client) executeWriteLoop(
 		)
 		return
 	}
-	c.mutex.Unlock()
 	vh("c.wloop.begin", "run", runID)
+	c.mutex.Unlock()
 
 	// Looped select that gets signals
 	for {
